@@ -620,8 +620,8 @@ class MeiParser(object):
                     1,
                 )  # if no tuplet modifier, set one that does not change the duration
             duration = (divs * 4 * tuplet_mod[0]) / (intsymdur * tuplet_mod[1])
-            for d in range(dots):
-                duration = duration + 0.5 * duration
+            # (every dot adds half of what the previous one added)
+            duration = duration * (2 ** (dots + 1) - 1) / 2**dots
             # sanity check to verify the divs are correctly set
             assert duration == int(duration)
 
